@@ -126,16 +126,15 @@ def check_props(pid, extra_targets=()):
     code = re.sub(r"\(\*.*?\*\)", " ", txt, flags=re.S)
     thms = re.findall(r"^\s*(?:Theorem|Lemma|Corollary)\s+([A-Za-z0-9_']+)", code, flags=re.M)
     res["theorems"] = thms
-    # force the Props file itself to be re-checked on every run
-    vo = os.path.join(COQ, rel[:-2] + ".vo")
+    # build the dependencies (and extra targets) with make, then re-check the Props file itself with a direct coqc
+    # call on every run, so that its Print Assumptions output is always produced and captured on its own
     with Lock("coq"):
         coq_prepare()
-        for ext in (".vo", ".glob", ".vos", ".vok"):
-            try:
-                os.remove(os.path.join(COQ, rel[:-2] + ext))
-            except FileNotFoundError:
-                pass
         rc, out = sh(["timeout", "3000", "make", "-j%d" % NCPU, rel[:-2] + ".vo"] + list(extra_targets), cwd=COQ)
+        if rc == 0:
+            rc, out2 = sh(["timeout", "1200", "coqc", "-Q", "theories", "CV", "-w",
+                           "-notation-overridden,-deprecated-hint-without-locality,-deprecated-instance-without-locality,-ambiguous-paths", rel], cwd=COQ)
+            out = out2 if rc == 0 else out + "\n" + out2
     res["log"] = out
     if rc != 0:
         # find which theorem (or dependency file) broke
